@@ -23,9 +23,75 @@ import (
 
 type c07Case struct {
 	Shape  string   `json:"shape"`
-	Target []string `json:"target"` // path: keys and indices as text ("#2" = index 2)
-	Update string   `json:"update"` // kind
+	Target []string `json:"target"`               // path: keys and indices as text ("#2" = index 2)
+	Update string   `json:"update"`               // kind
 	Deco   string   `json:"decoration,omitempty"` // "" (foot comment after the last entry of nested collections) | foots (after every entry) | aliases (a commented alias entry closes every collection)
+	// updates addressed through an alias, in a file whose sections (or documents) define anchor names again
+	Names   []string `json:"anchor_name_of_each_section,omitempty"`
+	Section int      `json:"addressed_section,omitempty"`
+	Stream  bool     `json:"one_document_per_section,omitempty"`
+}
+
+// c07AliasText: one section per name, each with its own anchored defaults and an alias to them.
+func c07AliasText(names []string, stream bool) string {
+	var sb strings.Builder
+	sb.WriteString("# every section has its own defaults\n")
+	for i, n := range names {
+		ind := "  "
+		if stream {
+			ind = ""
+			if i > 0 {
+				sb.WriteString("---\n")
+			}
+		} else {
+			fmt.Fprintf(&sb, "s%d:\n", i)
+		}
+		fmt.Fprintf(&sb, "%s# defaults of section %d\n%sdefaults: &%s\n%s  replicas: %d # c%d\n%s  tier: 't%d'\n%sspec: *%s # uses %d\n", ind, i, ind, n, ind, i, i, ind, i, ind, n, i)
+	}
+	return sb.String()
+}
+
+// c07AliasCheck: T is the node the alias refers to (the latest definition of the name in front of it); the output must be that of
+// `.` with the one line inside T rewritten (or gone).
+func c07AliasCheck(cs c07Case) (kind, detail string) {
+	text := c07AliasText(cs.Names, cs.Stream)
+	base, berr, bpan := c07Run1(text, ".")
+	if berr != nil || bpan != nil {
+		return "skip", "identity fails"
+	}
+	p := fmt.Sprintf(".s%d.spec.replicas", cs.Section)
+	if cs.Stream {
+		p = fmt.Sprintf("(select(di == %d) | .spec.replicas)", cs.Section)
+	}
+	old := fmt.Sprintf("replicas: %d # c%d\n", cs.Section, cs.Section)
+	if strings.Count(base, old) != 1 {
+		return "skip", "baseline lacks the line"
+	}
+	var expr, want string
+	switch cs.Update {
+	case "scalar":
+		expr, want = p+" = 9", strings.Replace(base, old, fmt.Sprintf("replicas: 9 # c%d\n", cs.Section), 1)
+	case "arith":
+		expr, want = p+" |= . + 5", strings.Replace(base, old, fmt.Sprintf("replicas: %d # c%d\n", cs.Section+5, cs.Section), 1)
+	case "delete":
+		expr = "del(" + p + ")"
+		i := strings.Index(base, old)
+		j := strings.LastIndex(base[:i], "\n") + 1
+		want = base[:j] + base[i+len(old):]
+	default:
+		return "skip", ""
+	}
+	got, err, pan := c07Run1(text, expr)
+	if pan != nil {
+		return "panic", fmt.Sprint(pan)
+	}
+	if err != nil {
+		return "error", err.Error()
+	}
+	if got != want {
+		return "through-alias", fmt.Sprintf("document:\n%s`%s` gives\n%sexpected `.` with the one line rewritten:\n%s", text, expr, got, want)
+	}
+	return "", ""
 }
 
 // c07Decorate renders the shape with every node decorated; returns text.
@@ -188,6 +254,9 @@ func c07PathExpr(target []string) string {
 
 // c07Check returns (kind, detail).
 func c07Check(cs c07Case) (kind, detail string) {
+	if len(cs.Names) > 0 {
+		return c07AliasCheck(cs)
+	}
 	v := fromJSONText(cs.Shape)
 	text := c07Decorate(v, cs.Deco)
 	extra := 0 // entries the decoration adds to every non-empty collection
@@ -735,8 +804,51 @@ func c07Run(c *fw.Ctx) error {
 			kindDecos = append(kindDecos, [2]string{k, deco})
 		}
 	}
-	c.Res.Bound = fmt.Sprintf("3 decoration variants (foot comment after the last entry of nested collections; after every entry; a commented alias closing every collection) x %d fully decorated documents (every container shape of <= %d content nodes over {1, \"a\"} and keys {k, m}, plus 3 deeper ones) x every node as target x %d update kinds", len(shapes), n, len(kinds))
+	c.Res.Bound = fmt.Sprintf("3 decoration variants (foot comment after the last entry of nested collections; after every entry; a commented alias closing every collection) x %d fully decorated documents (every container shape of <= %d content nodes over {1, \"a\"} and keys {k, m}, plus 3 deeper ones) x every node as target x %d update kinds; and <= 3 sections (or documents) that each anchor their defaults under one of 2 names, every section updated through its alias (=, |=, del)", len(shapes), n, len(kinds))
 	var idx int64
+	// sections that define anchor names again: every assignment of 2 names to <= 3 sections, every section addressed through its alias
+	for _, stream := range []bool{false, true} {
+		for n := 1; n <= 3; n++ {
+			for code := 0; code < 1<<n; code++ {
+				if code&1 != 0 {
+					continue // the first section's name is d (the other half is the same up to renaming)
+				}
+				names := make([]string, n)
+				for i := range names {
+					names[i] = []string{"d", "e"}[(code>>i)&1]
+				}
+				for sec := 0; sec < n; sec++ {
+					for _, k := range []string{"scalar", "arith", "delete"} {
+						idx++
+						if !c.Mine(idx) {
+							continue
+						}
+						cs := c07Case{Names: names, Section: sec, Stream: stream, Update: k}
+						kind, detail := c07Check(cs)
+						if kind == "skip" {
+							continue
+						}
+						c.Eval(1)
+						c.Validated(1)
+						key := fmt.Sprintf("alias|%v|%d|%v|%s", names, sec, stream, k)
+						c.Nontrivial(key)
+						if kind == "" {
+							c.Outcome(key)
+							continue
+						}
+						c.Count("mismatch_"+kind, 1)
+						redefined := "/names-unique"
+						for i := 0; i < sec; i++ {
+							if names[i] == names[sec] {
+								redefined = "/name-defined-before"
+							}
+						}
+						c.Violation(kind+"/"+k+redefined+map[bool]string{false: "/one-document", true: "/stream"}[stream], int64(n), cs, detail)
+					}
+				}
+			}
+		}
+	}
 	for si, sh := range shapes {
 		shape := sh.JSON()
 		for ti, tg := range c07Targets(sh) {
